@@ -25,6 +25,39 @@ import common
 
 TARGET = "pyatv.conf"
 TMPNAME = TARGET + ".tmp"
+LAYOUT = "plain"        # what kind of thing the storage path is (see Driver.restore)
+LAYOUTS = ["plain", "symlink-same-dir", "symlink-other-dir", "dangling-symlink", "hardlink", "in-symlinked-dir"]
+
+
+def storage_rel():
+    """The storage path handed to FileStorage, relative to the scenario directory."""
+    return os.path.join("linkdir", TARGET) if LAYOUT == "in-symlinked-dir" else TARGET
+
+
+def tree(d):
+    """Everything under d without following links (files: content, links: where they point)."""
+    out = {}
+    for base, dirs, files in os.walk(d):
+        for n in sorted(dirs + files):
+            p = os.path.join(base, n)
+            r = os.path.relpath(p, d)
+            if os.path.islink(p):
+                out[r] = ("link", os.readlink(p))
+            elif os.path.isfile(p):
+                with open(p, "rb") as fh:
+                    out[r] = ("file", fh.read())
+    return out
+
+
+def snapshot(d):
+    """What load() would read at the storage path (links followed), and the temporary file."""
+    out = {}
+    for key, rel in ((TARGET, storage_rel()), (TMPNAME, TMPNAME)):
+        p = os.path.join(d, rel)
+        if os.path.isfile(p):
+            with open(p, "rb") as fh:
+                out[key] = fh.read()
+    return out
 
 
 # --------------------------------------------------------------------------- recorder
@@ -147,7 +180,18 @@ class Recorder:
         return os.path.realpath(p).startswith(self.root + os.sep)
 
     def rel(self, p):
-        return os.path.relpath(os.path.realpath(os.fspath(p)), self.root)
+        """Name of a path in the op list: the storage path - under whatever name, link or directory link it
+        is reached - is TARGET; everything else its path below the scenario directory (links not resolved)."""
+        p = os.fspath(p)
+        if isinstance(p, bytes):
+            p = os.fsdecode(p)
+        a = os.path.normpath(os.path.abspath(p))
+        t = os.path.normpath(os.path.join(self.root, storage_rel()))
+        if a == t or os.path.realpath(a) == os.path.realpath(t):
+            return TARGET
+        d = os.path.dirname(a)
+        return os.path.relpath(os.path.join(os.path.realpath(d), os.path.basename(a)), self.root) \
+            if os.path.realpath(d).startswith(self.root) else os.path.relpath(a, self.root)
 
     def pending(self):
         return sum(len(x.pending) for x in self.proxies if not x.closed)
@@ -308,10 +352,13 @@ class Recorder:
 def use_names(drv, sc):
     """Storage file name of the scenario, and the name the code really uses for its temporary file
     (learned from a recorded save: the first path other than the storage file opened for writing)."""
-    global TARGET, TMPNAME
+    global TARGET, TMPNAME, LAYOUT
     TARGET = sc.get("filename") or "pyatv.conf"
-    TMPNAME = TARGET + ".tmp"
-    d = drv.fresh_dir()
+    LAYOUT = sc.get("layout") or "plain"
+    if LAYOUT == "dangling-symlink" and (sc.get("old") is not None or sc.get("old_file") is not None):
+        LAYOUT = "symlink-same-dir"         # an old content needs something to live in
+    TMPNAME = storage_rel() + ".tmp"
+    d = drv.restore(None, None)
     st = drv.storage(d)
     drv.set_devices(st, [{"protocols": {"mrp": {"identifier": "probe"}}}])
     rec = Recorder(d)
@@ -384,6 +431,11 @@ def scenarios(ctx):
     for fn in FILENAMES:
         out.append({"name": "filename:" + fn, "filename": fn, "old": [a], "stale_tmp": None, "new": [b, a],
                     "limit": 48, "faults": fn in ("pyatv.tmp", "pyatv")})
+    # what kind of thing the storage path is
+    for lay in LAYOUTS[1:]:
+        out.append({"name": "layout:" + lay, "layout": lay, "old": None if lay == "dangling-symlink" else [a],
+                    "stale_tmp": None, "new": [b, a], "limit": 48, "faults": lay in ("symlink-same-dir", "in-symlinked-dir")})
+    out.append({"name": "layout:symlink-other-dir:stale", "layout": "symlink-other-dir", "old": [a, b], "stale_rel": "longer", "new": [b], "limit": 48})
     for i in range(1 if not ctx.thorough else 6):
         ga = [rand_device(rng, "a%d" % i) for _ in range(rng.randrange(2, 5))]
         out.append({"name": "two-gen-random-%d" % i, "old": None if rng.random() < 0.3 else [rand_device(rng, "o")],
@@ -399,7 +451,7 @@ def scenarios(ctx):
             stale = rng.choice(["", "{", "garbage\n", json.dumps({"version": 1, "devices": []})])
         out.append({"name": "random-%d" % i, "old": old, "stale_tmp": stale, "new": new,
                     "filename": rng.choice(["pyatv.conf"] + FILENAMES + ["s%d.%s" % (i, rng.choice(["tmp", "conf.tmp", "json"]))]),
-                    "faults": rng.random() < 0.5})
+                    "layout": rng.choice(LAYOUTS), "faults": rng.random() < 0.5})
     return out
 
 
@@ -430,7 +482,7 @@ class Driver:
 
     def storage(self, d):
         from pyatv.storage.file_storage import FileStorage
-        return FileStorage(os.path.join(d, TARGET), self.loop)
+        return FileStorage(os.path.join(d, storage_rel()), self.loop)
 
     def set_devices(self, st, devs):
         from pyatv.settings import Settings
@@ -446,25 +498,50 @@ class Driver:
         if sc.get("old_file") is not None:          # the old file given literally (two-generation scenarios)
             old_bytes = sc["old_file"].encode("utf-8")
         elif sc.get("old") is not None:
+            from pyatv.storage.file_storage import FileStorage
             d = self.fresh_dir()
-            st = self.storage(d)
+            st = FileStorage(os.path.join(d, "old.conf"), self.loop)
             self.set_devices(st, sc["old"])
             # an old file always exists in this scenario, also for an empty device list
             if not st.changed:
                 st._save_file()
             else:
                 self.run(st.save())
-            with open(os.path.join(d, TARGET), "rb") as fh:
+            with open(os.path.join(d, "old.conf"), "rb") as fh:
                 old_bytes = fh.read()
             shutil.rmtree(d)
         stale = None if sc.get("stale_tmp") is None else sc["stale_tmp"].encode("utf-8")
         return old_bytes, stale
 
     def restore(self, old_bytes, stale):
+        """The directory before the save, laid out as the scenario says:
+             plain              the storage path is a regular file
+             symlink-same-dir   ... a symbolic link to a file next to it
+             symlink-other-dir  ... a symbolic link to a file in another directory
+             dangling-symlink   ... a symbolic link to nothing (no old content)
+             hardlink           ... a second name of a file
+             in-symlinked-dir   ... a regular file reached through a symbolic link to its directory"""
         d = self.fresh_dir()
-        if old_bytes is not None:
-            with open(os.path.join(d, TARGET), "wb") as fh:
+        real = os.path.join(d, TARGET)
+        if LAYOUT == "symlink-same-dir":
+            real = os.path.join(d, "real-" + TARGET)
+            os.symlink("real-" + TARGET, os.path.join(d, TARGET))
+        elif LAYOUT == "symlink-other-dir":
+            os.mkdir(os.path.join(d, "elsewhere"))
+            real = os.path.join(d, "elsewhere", "real.conf")
+            os.symlink(os.path.join("elsewhere", "real.conf"), os.path.join(d, TARGET))
+        elif LAYOUT == "dangling-symlink":
+            real = None
+            os.symlink("nowhere-" + TARGET, os.path.join(d, TARGET))
+        elif LAYOUT == "in-symlinked-dir":
+            os.mkdir(os.path.join(d, "realdir"))
+            os.symlink("realdir", os.path.join(d, "linkdir"))
+            real = os.path.join(d, "realdir", TARGET)
+        if old_bytes is not None and real is not None:
+            with open(real, "wb") as fh:
                 fh.write(old_bytes)
+            if LAYOUT == "hardlink":
+                os.link(real, os.path.join(d, "other-name-" + TARGET))
         if stale is not None:
             with open(os.path.join(d, TMPNAME), "wb") as fh:
                 fh.write(stale)
@@ -490,10 +567,8 @@ class Driver:
             except Exception as ex:          # the save itself raising is reported by the caller
                 if not rec.frozen:           # (whatever happens after the crash point is fiction)
                     err = "%s: %s" % (type(ex).__name__, ex)
-        files = {}
-        for f in sorted(os.listdir(d)):
-            with open(os.path.join(d, f), "rb") as fh:
-                files[f] = fh.read()
+        files = snapshot(d)
+        rec.tree = tree(d)
         return d, rec, files, want, err
 
 
@@ -530,7 +605,7 @@ def expand_base(ctx, drv, sc, limit):
         return [(dict(c, stale_tmp=stale), limit)]
     if "gen_a" in sc:
         old_bytes, _ = drv.prepare(dict(sc, stale_tmp=None))
-        sc_a = {"name": sc["name"] + ":A", "new": sc["gen_a"], "filename": sc.get("filename")}
+        sc_a = {"name": sc["name"] + ":A", "new": sc["gen_a"], "filename": sc.get("filename"), "layout": sc.get("layout")}
         rec_a, a_bytes = new_bytes_of(drv, sc_a, old_bytes)
         _rec_b, b_bytes = new_bytes_of(drv, sc, old_bytes)
         pend = list(rec_a.pending_before) + [rec_a.final_pending]
@@ -558,7 +633,7 @@ def expand_base(ctx, drv, sc, limit):
         # the states with the longest left-over temporary file get every crash point of the second save
         order = sorted(states.items(), key=lambda kv: -(len(kv[0][1]) if kv[0][1] is not None else -1))
         for i, ((tgt, tmp), (k, j)) in enumerate(order):
-            c = {"name": "%s:A-died-at-%d.%d" % (sc["name"], k, j), "new": sc["new"], "filename": sc.get("filename"),
+            c = {"name": "%s:A-died-at-%d.%d" % (sc["name"], k, j), "new": sc["new"], "filename": sc.get("filename"), "layout": sc.get("layout"),
                  "old_file": None if tgt is None else tgt.decode("utf-8"),
                  "stale_tmp": None if tmp is None else tmp.decode("utf-8")}
             out.append((c, limit if i < 2 else 16))
@@ -700,15 +775,12 @@ def run_scenario(ctx, drv, sc, limit, cases, only_crash=None):
     ops = full.ops
     new_bytes = b"".join(o[2] for o in ops if o[0] in ("write", "os-write"))
     # completeness of the recording: both runs leave the same directory
-    ref = {}
-    for f in sorted(os.listdir(d_ref)):
-        with open(os.path.join(d_ref, f), "rb") as fh:
-            ref[f] = fh.read()
-    if fault is None and ref != files_full:
+    ref = tree(d_ref)
+    if fault is None and ref != full.tree:
         ctx.tie_broken("correspondence:recorder-incomplete", json.dumps(
             {"scenario": sc["name"], "recorded_ops": op_names(ops),
-             "files_with_recorder": {k: len(v) for k, v in files_full.items()},
-             "files_without": {k: len(v) for k, v in ref.items()}}))
+             "files_with_recorder": {k: (v[0], len(v[1])) for k, v in full.tree.items()},
+             "files_without": {k: (v[0], len(v[1])) for k, v in ref.items()}}))
     names = []
     cops = [cop(o, names) for o in ops]
     ctx.count("ops:" + (",".join(o[0] for o in ops) or "none"))
@@ -763,7 +835,8 @@ def run(ctx):
     limit = 700 if not ctx.thorough else 100000
     ctx.rule = ("per scenario (old storage file | none, optional stale temporary file - also longer than / equal to / shorter than "
                 "the new content, and every directory an interrupted earlier save of a longer generation leaves behind - , new settings, "
-                "storage file names with suffix .tmp / no suffix / several dots, optionally ONE call of the save made to fail with OSError): every crash point "
+                "storage file names with suffix .tmp / no suffix / several dots, the storage path a regular file / symbolic link (same dir, other dir, dangling) / hard link / "
+                "inside a symlinked directory, optionally ONE call of the save made to fail with OSError): every crash point "
                 "(k recorded file-system calls completed, j bytes of the pending buffer written; all j up to %d per buffer, "
                 "sampled above) of the real FileStorage.save(); non-trivial = crash strictly inside the save; "
                 "distinct by (scenario, k, j, resulting directory)" % limit)
